@@ -74,6 +74,49 @@ def run_gen(chk, prop, name, mode, alphabet, maxlen, prefix, bases, conv=True, w
     return summary, c01, c04
 
 
+# ---- whole pipeline: bytes -> ScpiLex -> units -> ScpiTree/ScpiExec, replayed on Node::run with logging handlers
+def pipeline_tree():
+    from .eng_exec import T, B, L, flatten
+    return flatten(T(L("A"), L("B"), L("E"), L("H"), L("*A"), L("*IDN"), B("AB", L("A"), L("B", d=True)),
+                     B("SYSTem", B("ERRor", L("NEXT", d=True), L("COUNt"))), L("AAAAAAAAAAAA")))
+
+
+def run_pipeline(chk, prop, name, mode, alphabet, maxlen, prefix, bases):
+    from .eng_exec import tla_tree
+    wd = os.path.join(WORK, f"{prop}-lex")
+    os.makedirs(wd, exist_ok=True)
+    ft = pipeline_tree()
+    mod = f"MCRun_{prop}_{name}".replace("-", "_")
+    text = mc_text(mod, mode, alphabet, maxlen, prefix, bases).replace("EXTENDS MCLex", "EXTENDS MCRun").replace(
+        "====", f"C_Tree == {tla_tree(ft)}\n====")
+    cfg = mc_cfg(mode, maxlen).replace("INVARIANTS Emit Shape BasesWellFormed", "  Tree <- C_Tree\n  MCands = {}\nINVARIANTS EmitRun")
+    raw = os.path.join(wd, f"run-{name}.raw")
+    res = tlc(mod, cfg, f"{prop}-run-{name}", workers=8, gen_text=text, raw_out=raw, timeout=3000)
+    require_clean(res, f"MCRun[{name}]")
+    chk.add_tlc(f"MCRun[{name}]", res, "strings enumerated; for the well-formed ones the expected execution (ScpiRun) is emitted")
+    tp = os.path.join(wd, "pipeline.tree.json")
+    with open(tp, "w") as f:
+        json.dump(ft, f)
+    out, _, _ = harness(["exec-replay", "--tree", tp, "--cases", raw])
+    os.remove(raw)
+    summary = None
+    for line in out.splitlines():
+        v = json.loads(line)
+        if v.get("summary"):
+            summary = v
+            continue
+        c0 = v["case"]
+        chk.violation({"engine": "pipeline", "why": v["bad"]},
+                      f"well-formed message {v['message']!r}: ScpiRun expects calls {[(x['leaf'], x['form'], len(x['got'])) for x in c0['calls']]} err {c0['err']} out {bytes(c0['out'])!r}; "
+                      f"implementation gave {json.dumps(v['got'])[:500]}", {"message": v["message"], "bytes": c0["bytes"], "got": v["got"]})
+    if not summary:
+        raise ToolError("pipeline replay produced no summary")
+    chk.count(evaluations=summary["executed"], traces=summary["executed"])
+    chk.cov.setdefault("pipeline_messages", 0)
+    chk.cov["pipeline_messages"] += summary["executed"]
+    return summary
+
+
 def sig_c04(b, v):
     if "decomposition differs" in b:
         return {"engine": "lex", "what": "decomposition", "first": first_diff(v)}
@@ -131,6 +174,14 @@ def explore(chk, prop, tier):
 
 def run(chk, tier, seed):
     tot, kinds = explore(chk, chk.prop, tier)
+    if chk.prop == "C04":
+        th = tier == "thorough"
+        n = 0
+        for name, mode, alphabet, maxlen, prefix, bases in [("data", "enum", SINGLES + CHUNKS, 3, b"A ", []), ("hdr", "enum", HDRS, 5 if not th else 6, b"", []),
+                                                            ("bases", "corrupt", [], 0, b"", BASES)]:
+            n += run_pipeline(chk, "C04", name, mode, alphabet, maxlen, prefix, bases)["executed"]
+        if n < 2000:
+            raise ToolError(f"vacuity: only {n} well-formed strings reached the pipeline replay")
     chk.count(evaluations=tot["cases"], traces=tot["cases"])
     chk.cov["exhaustive"] = True
     if chk.prop == "C04":
